@@ -49,6 +49,11 @@ ares_status_t        ares_dns_rr_set_abin_own(ares_dns_rr_t          *dns_rr,
 ares_status_t        ares_dns_rr_set_opt_own(ares_dns_rr_t    *dns_rr,
                                              ares_dns_rr_key_t key, unsigned short opt,
                                              unsigned char *val, size_t val_len);
+/* Same as ares_dns_rr_set_opt_own() but never replaces an existing option with
+ * the same id, used by the parser to record exactly what is on the wire */
+ares_status_t        ares_dns_rr_add_opt_own(ares_dns_rr_t    *dns_rr,
+                                             ares_dns_rr_key_t key, unsigned short opt,
+                                             unsigned char *val, size_t val_len);
 ares_status_t        ares_dns_record_rr_prealloc(ares_dns_record_t *dnsrec,
                                                  ares_dns_section_t sect, size_t cnt);
 ares_dns_rr_t       *ares_dns_get_opt_rr(ares_dns_record_t *rec);
